@@ -121,7 +121,11 @@ class TryOk(Cut):
         subj = pargs[0]
         if not any(re.search(self.pat, c) for c in call_tag(subj)):
             return None
-        return {tb for (v, tb, vn) in labels3 if vn in ("Continue", "Ok", "Some")}
+        explicit = {vn for (v, tb, vn) in labels3 if vn}
+        out = {tb for (v, tb, vn) in labels3 if vn in ("Continue", "Ok", "Some")}
+        if not out and explicit and explicit <= {"Err", "Break", "None"}:
+            out = {tb for (v, tb, vn) in labels3 if v == "otherwise"}      # `if let Err(e) = f(..) { return .. }`: success is the other edge
+        return out or None
 
 
 class PredTrue(Cut):
@@ -298,9 +302,82 @@ class CutPolicy(Policy):
                 if r:
                     remove |= r
                     self.hits.setdefault(c.name, []).append((frame.body.id, bb))
+            # `if let Some(x) = opt.filter(|x| pred)`: the Some edge is taken iff the predicate held, the None edge otherwise
+            if pname == "discr" and pargs and hasattr(pargs[0], "fields") and "#filt" in pargs[0].fields:
+                some = [tb for (v, tb, vn) in labels3 if vn == "Some"]
+                none = [tb for (v, tb, vn) in labels3 if vn == "None"] or [tb for (v, tb, vn) in labels3 if v == "otherwise"]
+                some = some or [tb for (v, tb, vn) in labels3 if v == "otherwise" and tb not in none]
+                if len(some) == 1 and len(none) == 1 and some != none:
+                    fake = [("0", none[0], None), ("otherwise", some[0], None)]
+                    for (pn2, pa2, pos2) in preds_of(pargs[0].fields["#filt"]):
+                        for c in self.cuts:
+                            if isinstance(c, (PredTrue, PredFalse)):
+                                r = c.remove(I, frame, pn2, pa2, pos2, fake, opv)
+                                if r:
+                                    remove |= r
+                                    self.hits.setdefault(c.name, []).append((frame.body.id, bb))
         if not remove:
+            # a decision composed of several guards (`opt.is_some_and(|r| a != x && b != *r)`): evaluate it under the assumption
+            # the cuts stand for (every guard false); when that determines the decision the other edge is infeasible
+            r = self._eval3(opv)
+            if r is not None and not any(vn for (v, tb, vn) in labels3):
+                keep = _bool_targets(labels3, r)
+                if keep and len(keep) < len({tb for (v, tb, vn) in labels3}):
+                    self.hits.setdefault("(composite decision)", []).append((frame.body.id, bb))
+                    return keep
             return None
         return {tb for (v, tb, vn) in labels3 if tb not in remove}
+
+    def _eval3(self, v, depth=0):
+        """three-valued value of a boolean under 'every PredTrue guard is false / every VariantEdge variant is excluded'"""
+        if depth > 6 or not hasattr(v, "atoms") or not v.atoms:
+            return None
+        vals = set()
+        for (o, ops) in v.atoms:
+            if ops:
+                return None
+            if isinstance(o, str):
+                if o not in ("Const(true)", "Const(false)"):
+                    return None
+                vals.add(o == "Const(true)")
+                continue
+            if not (isinstance(o, tuple) and o[0] == "pred"):
+                return None
+            name, args, neg = o[1], o[2:], False
+            if name == "not":
+                r = self._eval3(args[0], depth + 1)
+                r = None if r is None else (not r)
+            elif name == "all" and len(args) == 2:      # Option::is_some_and(closure result, subject)
+                s, c = self._is_some(args[1]), self._eval3(args[0], depth + 1)
+                r = False if (s is False or c is False) else (True if (s is True and c is True) else None)
+            else:
+                if name in ("ne", "is_none"):
+                    name, neg = {"ne": "eq", "is_none": "is_some"}[name], True
+                r = None
+                if name == "is_some" and args:
+                    r = self._is_some(args[0])
+                if r is None:
+                    for c in self.cuts:
+                        if isinstance(c, PredTrue):
+                            t = c.test(name, args)
+                            if t:
+                                r = (t == -1)
+                                break
+                if r is not None and neg:
+                    r = not r
+            if r is None:
+                return None
+            vals.add(r)
+        return vals.pop() if len(vals) == 1 else None
+
+    def _is_some(self, subject):
+        for c in self.cuts:
+            if c.__class__.__name__ == "VariantEdge" and hasattr(subject, "atoms") and origin_match(subject, c.pat, require_all=False):
+                if "None" in c.variants:
+                    return True
+                if "Some" in c.variants:
+                    return False
+        return None
 
 
 # ------------------------------------------------------------------ analyses
